@@ -30,7 +30,10 @@ EvLogs == {"none", "unreadable", "nomatch", "raw", "raw_uri", "var_ok", "var_mis
 \* Attestation: another serialisation of the same evidence, with the same outcome
 SnpExtra == {"snp_extra", "snp_bare_extra"}
 SnpNoExtra == {"snp_noextra", "snp_bare_noextra"}
-Quotes == {"none", "unparseable", "snp_extra", "snp_noextra", "snp_bare_extra", "snp_bare_noextra", "report_only", "tdx", "certtable_extra", "certtable_noextra",
+\* the bare certificate table as text: hexadecimal, or base64 on one line, with a final newline, wrapped at
+\* 76 columns (base64(1)) or at 64 with CR LF (openssl, MIME) -- other spellings of the same evidence
+CertTableExtra == {"certtable_extra", "certtable_extra_hex", "certtable_extra_b64", "certtable_extra_b64nl", "certtable_extra_b64wrap", "certtable_extra_b64crlf"}
+Quotes == CertTableExtra \cup {"none", "unparseable", "snp_extra", "snp_noextra", "snp_bare_extra", "snp_bare_noextra", "report_only", "tdx", "certtable_noextra",
            "snp_short_meas", "tdx_short_mrtd"}      \* a report / quote whose measurement is not 48 bytes long
 Providers == {"none", "snp_extra", "snp_noextra", "failing"}
 Getters == {"none", "ok", "failing"}
@@ -57,7 +60,7 @@ FromQuote(q) ==
   CASE q \in {"none", "unparseable"} -> <<"", "", TRUE>>
     [] q \in SnpExtra -> <<"quote_extra", IF Design = "legacy" THEN "" ELSE "fullq", FALSE>>
     [] q \in SnpNoExtra \cup {"report_only", "tdx"} -> <<"", "fullq", FALSE>>
-    [] q = "certtable_extra" -> <<"quote_extra", "", FALSE>>     \* no measurement in a bare certificate table
+    [] q \in CertTableExtra -> <<"quote_extra", "", FALSE>>     \* no measurement in a bare certificate table
     [] q = "certtable_noextra" -> <<"", IF Design = "legacy" THEN "short" ELSE "", FALSE>>
     [] q \in {"snp_short_meas", "tdx_short_mrtd"} -> <<"", IF Design = "legacy" THEN "short" ELSE "", FALSE>>
 FromProvider(p) ==
@@ -96,7 +99,7 @@ Extract(r) ==
 Local(r) ==
   IF r.evlog \in {"raw", "raw_uri", "var_ok_then_raw", "var_missing_then_raw"} THEN "evlog_raw"
   ELSE IF r.evlog \in {"var_ok", "var_ok_uri"} THEN "evlog_var"
-  ELSE IF r.quote \in SnpExtra \cup {"certtable_extra"} THEN "quote_extra"
+  ELSE IF r.quote \in SnpExtra \cup CertTableExtra THEN "quote_extra"
   ELSE "none"
 
 \* ---------------- path confinement ----------------
